@@ -93,7 +93,9 @@ def make_header(sim='SynthSim', box=32.0, zkms=1024.0, ppd=64, redshift=0.0, npr
     """The header keys the loader reads (BoxSize, VelZSpace_to_kms, ppd, SimName, Redshift, TimeSliceRedshiftsPrev)."""
     h = {'SimName': sim, 'BoxSize': float(box), 'VelZSpace_to_kms': float(zkms), 'ppd': float(ppd),
          'Redshift': float(redshift), 'H0': 64.0, 'ParticleMassHMsun': 1048576.0, 'NP': int(ppd) ** 3,
-         'TimeSliceRedshiftsPrev': [0.125 * (k + 1) for k in range(nprev)], 'NumTimeSliceRedshiftsPrev': int(nprev)}
+         'TimeSliceRedshiftsPrev': [0.125 * (k + 1) for k in range(nprev)], 'NumTimeSliceRedshiftsPrev': int(nprev),
+         # an hMpc = 0 run: the box in Mpc/h differs from BoxSize, the unit of the stored positions
+         'hMpc': 0, 'BoxSizeHMpc': float(box) * 0.75, 'BoxSizeMpc': float(box)}
     h.update(extra)
     return h
 
